@@ -68,6 +68,12 @@ class JSFunc:
 class RecV:
     """a value object in a specification: identity and the row of the record heap in the state the expression is read in"""
     def __init__(self, ref, row): self.ref, self.row = ref, row
+class JSQueue:
+    """a wait queue of a channel ($sendQueue / $recvQueue): only shift() is modelled, it yields a continuation or undefined"""
+    def __init__(self, name): self.name = name
+class JSOptFn:
+    """a continuation taken from a wait queue, or undefined"""
+    def __init__(self, undef): self.undef = undef
 class JSRec:
     def __init__(self, ref): self.ref = ref
 class JSDesc:
@@ -399,8 +405,10 @@ class JSExec(GoExec, SpecMixin, CallsMixin):
             raise Unsupported('operator %s on an object @%s' % (op, line))
         if op in ('===', '!==') and isinstance(a, OptNum) and isinstance(b, JSUndef):
             return a.undef if op == '===' else z3.Not(a.undef)
-        if op in ('===', '!==', '==', '!=') and isinstance(a, JSObj) and isinstance(b, JSFunc) and b.name.endswith('.nil') and '$nil' in a.fields:
+        if op in ('===', '!==', '==', '!=') and isinstance(a, JSObj) and isinstance(b, JSFunc) and (b.name.endswith('.nil') or b.name == '$chanNil') and '$nil' in a.fields:
             return a.fields['$nil'] if op in ('===', '==') else z3.Not(a.fields['$nil'])
+        if op in ('===', '!==', '==', '!=') and isinstance(a, JSOptFn) and isinstance(b, JSUndef):
+            return a.undef if op in ('===', '==') else z3.Not(a.undef)
         if op in ('===', '!==', '==', '!=') and isinstance(a, JSFunc) and isinstance(b, JSFunc) and a.name == 'arrayctor' and b.name == 'Array':
             if a.of.plain is None: raise Unsupported('array kind unknown')
             return a.of.plain if op in ('===', '==') else z3.Not(a.of.plain)
@@ -863,6 +871,8 @@ class JSExec(GoExec, SpecMixin, CallsMixin):
                                     patterns=[z3.Select(na, k)]))
                 return StrV(na, z3.IntVal(0), src.length)
             obj = self.ev(st, c['object'])
+            if isinstance(obj, JSQueue) and mname == 'shift' and not args:
+                return JSOptFn(fresh('q.empty', B))
             if isinstance(obj, JSDesc) and mname == 'copy' and len(args) == 2:
                 # f.typ.copy(a, b), the copy function of another type: an abstract call.  It writes the object a (and nothing
                 # that this function can see besides) and is recorded: copiedFrom(a) = b, copiedBy(a) = the type.
@@ -936,6 +946,12 @@ class JSExec(GoExec, SpecMixin, CallsMixin):
         if c['type'] == 'Identifier':
             name = c['name']
             lv = st.env.get(name)
+            if isinstance(lv, JSOptFn):
+                # resuming a goroutine parked on the channel: scheduled work of another goroutine, no effect on this function's state
+                self.oblige(st, 'continuation-defined@%s' % line, z3.Not(lv.undef), src=line)
+                for a in args: self.ev(st, a)
+                self.assumed.add('continuations taken from a wait queue only schedule other goroutines (no effect on the state the function under contract sees)')
+                return UNDEF
             if isinstance(lv, JSFunc) and lv.name.endswith('.zero'):
                 return fresh('zero')          # zero value of the element type: opaque
             if name == '$fround':
@@ -1242,7 +1258,9 @@ class JSExec(GoExec, SpecMixin, CallsMixin):
             return v
         if isinstance(old, JSObj):
             return JSObj({k: self.js_havoc(st, v, name + k) for k, v in old.fields.items()}, old.ctor, old.ref)
-        if isinstance(old, (JSArr, JSUndef, JSFunc)):
+        if isinstance(old, JSOptFn):
+            return JSOptFn(fresh('lv.q.empty', B))
+        if isinstance(old, (JSArr, JSUndef, JSFunc, JSQueue)):
             return old
         raise Unsupported('havoc of JS value %r' % (old,))
 
@@ -1354,6 +1372,9 @@ class JSExec(GoExec, SpecMixin, CallsMixin):
             return JSObj({'$array': arr, '$offset': off, '$length': ln, '$capacity': cap, '$nil': nil, '$elemtype': self.make_param(st, name + '.elem', 'elemtype')}, ctor='Slice', ref=fresh('obj'))
         if ty == 'elemtype':
             return JSObj({'kind': self.make_param(st, name + '.kind', 'nat')}, ctor='Type', ref=fresh('obj'))
+        if ty == 'chan':
+            return JSObj({'$closed': fresh(name + '.closed', B), '$nil': fresh(name + '.nil', B), '$sendQueue': JSQueue('send'), '$recvQueue': JSQueue('recv'),
+                          '$elem': JSObj({}, ctor='Type', ref=fresh('obj'))}, ctor='Chan', ref=fresh('obj'))
         if ty == 'rec':
             r = fresh(name + '.ref'); st.pc.append(r > 0)
             return JSRec(r)
